@@ -2,6 +2,7 @@
    mode c10-run:  N (TOKEN...)
      primitive tokens   (commit C K V) (ft C) (tl C) (ml C) (pr C)         first-round steps
      user-level tokens  (push C) (fetch C)            the whole block, in the code's order, all rounds
+                        (pull C failed|unchanged|moved)   git pull that left by the given exit of its post hook
        parts of a push cut at the rendezvous points; J = number of the round (1, 2, ...):
                         (p0 C) (p1 C) (p01 C)   round 1 up to the point after its fetch
                         (pm C J)                test + merge of round J
@@ -27,6 +28,9 @@ let steps_of x =
   | [Sym "pr"; c] -> [PushRef (false, c_of c)]
   | [Sym "push"; c] -> pushNotes (c_of c)
   | [Sym "fetch"; c] -> fetchNotes (c_of c)
+  | [Sym "pull"; c; Sym "failed"] -> pullNotes PullFailed (c_of c)
+  | [Sym "pull"; c; Sym "unchanged"] -> pullNotes PullUnchanged (c_of c)
+  | [Sym "pull"; c; Sym "moved"] -> pullNotes PullMoved (c_of c)
   | [Sym "p0"; c] -> push_part0 false (c_of c)
   | [Sym "p1"; c] -> push_part1 false (c_of c)
   | [Sym "p01"; c] -> push_part0 false (c_of c) @ push_part1 false (c_of c)
